@@ -3,6 +3,7 @@ From Coq Require Import String ZArith List.
 From NX Require Import Bytes PyStruct StructCanon Frame Stream Stream_proofs Stream_values Stream_enc_proofs
   Pinned_parse Pinned_parserecv Pinned_iparse.
 From NX Require PyLite Src_all Src_stream_enc_proofs.
+From NX Require Stream_e2e_spec Stream_e2e Stream_e2e_examples.
 Open Scope list_scope.
 Open Scope Z_scope.
 
@@ -46,6 +47,38 @@ Proof. exact meta_roundtrip. Qed.
 (** together with C04_payload / C04_any_row (stream decode of any sequence of
     well-formed encoded samples) this gives: decode (encode ss) = the non-empty
     samples, in order.  Worked instance, fixed-point and channel id 200: *)
+(** ** END TO END, at full strength (model level): for every layout, every user type table and
+    every list of samples that fit their channel ([sample_fits]: a computable predicate - channel
+    id 0..255 inside the layout and agreeing with its entry, vdim 1..255 (0 for the data-less
+    type), mlen 0..255 with matching metadata, values in the range of the row format; fixed
+    point: raw words a Python float holds exactly, i.e. every value the encoder can be GIVEN;
+    text that is not cut inside a code point; user types whose format packs the values), whose
+    encoded samples fit one frame: either every sample is empty and no frame is produced, or the
+    frame decodes as a STREAM frame whose payload the client decodes to EXACTLY the non-empty
+    samples, in order, with the values [decoded_of] writes down directly from the encoder-side
+    values (never through the decoder).  A list that does not fit one frame is refused with
+    struct.error ([C15_too_long]); the exclusions of [sample_fits] are each witnessed by a
+    [..._refuted] example in proofs/Stream_e2e_examples.v (F18 among them). *)
+Theorem C15_end_to_end : forall lay user l,
+  Forall (Stream_e2e_spec.sample_fits lay user) l ->
+  Stream_e2e_spec.payload_size l <= 65529 ->
+  match frame_stream_encode user l with
+  | Ok None => Forall empty_sample l
+  | Ok (Some frame) =>
+      exists payload,
+        frame_decode frame = Ok (id_of "STREAM", payload) /\
+        stream_decode lay user payload =
+          Ok (Some (0, map (Stream_e2e_spec.decoded_of user) (filter Stream_e2e_spec.non_empty l))) /\
+        filter Stream_e2e_spec.non_empty l <> []
+  | _ => False
+  end.
+Proof. exact Stream_e2e.stream_end_to_end. Qed.
+
+Theorem C15_too_long : forall lay user l,
+  Forall (Stream_e2e_spec.sample_fits lay user) l -> 65529 < Stream_e2e_spec.payload_size l ->
+  frame_stream_encode user l = Raise "struct.error".
+Proof. exact Stream_e2e.stream_too_long. Qed.
+
 (** ** ParseRecv._stream_bytes_get / _stream_data_encode / frame_stream_encode (and the table
     functions msfmt_get / dsfmt_get of iparse.py) as they are now: the regenerated abstract
     syntax run by the PyLite interpreter computes the model above for every list of samples in
@@ -83,3 +116,5 @@ Print Assumptions C15_some.
 Print Assumptions C15_data_roundtrip.
 Print Assumptions C15_meta_roundtrip.
 Print Assumptions C15_encode_src.
+Print Assumptions C15_end_to_end.
+Print Assumptions C15_too_long.
